@@ -74,6 +74,8 @@ var c08Families = []c08Family{
 		func(id int64) map[string]interface{} { return map[string]interface{}{"inp": id} }, false, false},
 	{"state inherited from the original (error values with mutable payloads)", "errs[0].value.n += inp\nerrs[1].value[0] += 1\nbox.e.value.k = inp\nout := [errs, box, is_error(errs[0])]\n",
 		func(id int64) map[string]interface{} { return map[string]interface{}{"inp": id} }, false, false},
+	{"state inherited from the original (empty containers filled by the run)", "seen[\"k\" + inp] = inp\nbag.items[\"i\" + inp] = [inp]\narr0 = append(arr0, inp)\nnest[0][\"n\"] = inp\nout := [len(seen), len(bag.items), len(arr0), nest]\n",
+		func(id int64) map[string]interface{} { return map[string]interface{}{"inp": id} }, false, false},
 	{"format and string building", "out := format(\"%d-%s-%v-%05d-%x\", inp, \"x\", [inp, \"s\"], inp, inp)\no2 := \"v=\" + inp + '-' + 1.5\n",
 		func(id int64) map[string]interface{} { return map[string]interface{}{"inp": id} }, false, false},
 	{"compare and copy shared constants", "k := [1, 2, [3, \"four\"], {a: 5.5}]\nout := [copy(k) == k, \"const\" == \"const\", k[2][1][inp % 4], immutable(k)[3].a + inp, 'c' + 1]\nfz := freeze(k)\n",
@@ -92,6 +94,12 @@ func c08Compile(f c08Family) (*tengo.Compiled, error) {
 		_ = s.Add("cfg", &tengo.ImmutableMap{Value: map[string]tengo.Object{"name": &tengo.String{Value: "cfg"},
 			"hits": &tengo.Array{Value: []tengo.Object{&tengo.Int{Value: 0}, &tengo.Int{Value: 0}, &tengo.Int{Value: 0}}}}})
 		_ = s.Add("rows", []interface{}{map[string]interface{}{"id": 1}, []interface{}{10, 20}})
+	}
+	if strings.HasPrefix(f.name, "state inherited from the original (empty") {
+		_ = s.Add("seen", map[string]interface{}{})
+		_ = s.Add("bag", map[string]interface{}{"items": map[string]interface{}{}})
+		_ = s.Add("arr0", []interface{}{})
+		_ = s.Add("nest", []interface{}{map[string]interface{}{}})
 	}
 	if strings.HasPrefix(f.name, "state inherited from the original (error") {
 		mk := func(v tengo.Object) *tengo.Error { return &tengo.Error{Value: v} }
